@@ -43,6 +43,54 @@ func funcOfValue(st *xState, v xVal) *ssa.Function {
 	return f
 }
 
+// ownErrorFree explores fn — a runner or closer the package registers itself
+// (not one supplied by the user) — and requires every error it can return to
+// be nil, or, for a runner, context.Canceled (the only error the inner
+// manager filters): only the user's runners and closers may contribute errors
+// to what Run and Close report.
+func (x *c12) ownErrorFree(fn *ssa.Function, isRunner bool, rule, construct, what string) {
+	if fn == nil || len(fn.Blocks) == 0 || x.ownChecked[fn] {
+		return
+	}
+	if x.ownChecked == nil {
+		x.ownChecked = map[*ssa.Function]bool{}
+	}
+	x.ownChecked[fn] = true
+	res := fn.Signature.Results()
+	if res.Len() == 0 || !types.Identical(res.At(res.Len()-1).Type(), types.Universe.Lookup("error").Type()) {
+		return
+	}
+	cl := &xClient{NoInline: x.noInline}
+	cl.OnReturn = func(st *xState, ret *ssa.Return, results []xVal) {
+		if len(results) == 0 {
+			return
+		}
+		v := results[len(results)-1]
+		switch {
+		case v.K == xNil:
+			return
+		case isRunner && x.isCanceledGlobal(v):
+			return
+		}
+		ctxErr := false
+		if v.K == xAtom {
+			if call, ok := v.V.(*ssa.Call); ok && call.Call.IsInvoke() && call.Call.Method.Name() == "Err" && namedKey(call.Call.Value.Type()) == "context.Context" {
+				ctxErr = true
+			}
+		}
+		switch {
+		case ctxErr:
+			x.bad(rule, construct, x.pos(ret), what+" "+FuncName(x.p, fn)+" returns its context's Err() at "+x.pos(ret)+": when that context ends by deadline this is context.DeadlineExceeded, which is not filtered, so Run and Close report an error although every registered runner and closer returned nil or context.Canceled")
+		case v.NonNil || x.isCanceledGlobal(v):
+			x.bad(rule, construct, x.pos(ret), what+" "+FuncName(x.p, fn)+" returns a non-nil error of its own at "+x.pos(ret)+": Run and Close then report an error that no registered runner or closer returned")
+		default:
+			x.undecide("%s %s returns at %s a value the check cannot show to be nil (%s)", what, FuncName(x.p, fn), x.pos(ret), v.String())
+		}
+	}
+	ex := newXplorer(x.p, x.ssaPkg, cl)
+	ex.Explore(fn, nil, 0)
+}
+
 // isStopRunner explores fn (a Runner) and reports whether it returns once the
 // channel closed by Close is closed, and once its own ctx is done.
 func (x *c12) isStopRunner(fn *ssa.Function) (onClose, onDone bool) {
@@ -120,6 +168,8 @@ func (x *c12) checkCloserRun() {
 	cRet := fname + " retErr then close(stopped)"
 	cStopR := fname + " stop runner on closeCh"
 	cFatal := fname + " release of the fatal closer when one result outstanding"
+	cOwnErr := fname + " internal runners contribute no error"
+	x.seen("C12.K2-filter", cOwnErr, p.Pos(fn.Pos()))
 	for _, rc := range [][2]string{{"C12.K0-once", cOnce}, {"C12.K3-order", cOrder}, {"C12.K3-order", cOwn}, {"C12.K3-collect", cCount}, {"C12.K3-collect", cColl},
 		{"C12.K3-collect", cJoin}, {"C12.K3-lock", cSnap}, {"C12.K4-stopped", cStop}, {"C12.K4-stopped", cRet}, {"C12.K4-closech", cStopR}, {"C12.K5-fatal", cFatal}} {
 		x.seen(rc[0], rc[1], p.Pos(fn.Pos()))
@@ -319,6 +369,8 @@ func (x *c12) checkCloserRun() {
 					if f == nil {
 						continue
 					}
+					// a runner Run itself hands to the inner manager
+					x.ownErrorFree(f, true, "C12.K2-filter", cOwnErr, "the internal runner")
 					res, seen := stopCache[f]
 					if !seen {
 						a, b := x.isStopRunner(f)
@@ -839,6 +891,9 @@ func (x *c12) checkWrappers() {
 			if ws.Client != 1 {
 				times := map[uint64]string{0: "0", 2: "2 or more"}[ws.Client]
 				probs["the wrapper stored in the closers can return at "+x.pos(ret)+" having called the registered closer "+times+" times instead of exactly once"] = true
+			}
+			if theCall != nil && theCall.Call.Signature().Results().Len() == 0 && len(res) == 1 && res[0].K != xNil {
+				probs["the wrapper stored in the closers for a closer without result returns something other than nil at "+x.pos(ret)+": Run and Close report an error no registered closer returned"] = true
 			}
 			if theCall != nil && theCall.Call.Signature().Results().Len() == 1 && len(res) == 1 && ws.Client == 1 {
 				if !(res[0].K == xAtom && res[0].V == ssa.Value(theCall)) {
